@@ -1,7 +1,7 @@
 SPECIFICATION Spec
 CONSTANTS
   MaxStmts = 1
-  MutKinds = {"IDENT", "SEMICOLON", "LPAREN", "RPAREN", "LBRACE", "RBRACE", "ASSIGN", "PLUS", "COMMA", "ELSE"}
+  MutKinds = {"IDENT", "SEMICOLON", "LPAREN", "RPAREN", "LBRACE", "RBRACE", "ASSIGN", "PLUS", "COMMA", "ELSE", "LET", "FUNCTION"}
   Export = TRUE
 INVARIANT Inv
 CHECK_DEADLOCK FALSE
